@@ -239,6 +239,8 @@ func classifyCuts(c *Ctx, res *report.Result, rule, owner string, cb, top *ssa.F
 						res.Hold(rule, construct, pos, "class unexported-field: protobuf internals only")
 					case guardTypeAssertOK(gs, "api/history/v1", "History"):
 						res.Hold(rule, construct, pos, "class History-handled: events are visited by the per-event recursion")
+					case containerHandledBefore(cb, alt.block):
+						res.Hold(rule, construct, pos, "class container-handled: the skipped value is a search-attribute container that translateIndexedFields has just rebuilt (payload values hold no further containers)")
 					default:
 						res.Viol(rule, construct, pos, "visit.Skip returned outside the reviewed classes (nil pointer / unexported field / History handled): everything below the skipped value is neither translated nor access-checked", gtxt...)
 					}
@@ -703,4 +705,30 @@ func checkVisitLibrary(c *Ctx, res *report.Result, rule string) {
 	ok := found && strings.Join(kinds, ",") == strings.Join(want, ",") && skipContinue && stopReturn
 	res.Check(ok, rule, construct, "", "visit.queue enqueues children for "+strings.Join(kinds, ",")+"; Skip continues without children; Stop returns",
 		fmt.Sprintf("the traversal of %s no longer matches the model (kinds with children: %v, skip=%v stop=%v)", visitPath, kinds, skipContinue, stopReturn))
+}
+
+// containerHandledBefore: every path from the callback's entry to block b passes a call of translateIndexedFields
+// (the value being skipped is the search-attribute container the callback has just handled).
+func containerHandledBefore(cb *ssa.Function, b *ssa.BasicBlock) bool {
+	isTr := func(x ssa.Instruction) bool {
+		call, ok := x.(ssa.CallInstruction)
+		return ok && flow.IsCallTo(call.Common(), icPkg, "", "translateIndexedFields")
+	}
+	if len(b.Instrs) == 0 {
+		return false
+	}
+	any := false
+	for _, bb := range cb.Blocks {
+		for _, ins := range bb.Instrs {
+			if isTr(ins) {
+				any = true
+			}
+		}
+	}
+	if !any {
+		return false
+	}
+	first := b.Instrs[0]
+	r := flow.FindPath(flow.Point{Block: cb.Blocks[0]}, func(x ssa.Instruction) bool { return x == first }, isTr, nil)
+	return !r.Found
 }
